@@ -142,3 +142,17 @@ CLAIMS["C13"] = {
             "hash256/hash of each parser is compared before and after meaning-preserving renamings/reorderings/comments; validators sharing a digest must share their verdict vector, and one-edit twins that the pool distinguishes must get different digests.",
     "note": "behaviour=>digest is only as strong as the common pool / generated twins; SHA-256 equality is exact. Known findings record where alias boundaries change the emitted structure and hence the digest.",
 }
+
+# ------------------------------------------------------------------------------------------ C15
+SPEC["C15"] = {
+    "engine": "node",
+    "rule": "cases = parsers of generated programs: describe() text is compiled again by the real compiler (text + buildParsers<{X: Codec<name>}>) and the second-generation validator is compared with the "
+            "original on the shared value pool and by hash256; alias declarations are counted. distinct_nontrivial = distinct (type shape, constructor-kind set) of the described types",
+    "floor": {"quick": 3000, "thorough": 100000},
+}
+CLAIMS["C15"] = {
+    "technique": "round-trip runtime monitor: describe() output fed back through the real compiler, validators of both generations compared on a value pool and by hash256",
+    "text": "For every parser of the corpus describe() must return text that beff compiles without diagnostics, whose root alias CodecName yields a validator with the same verdict on every pool value and the same hash256, "
+            "and that declares every alias exactly once; a RangeError is non-termination on a recursive type.",
+    "note": "The oracle is beff's own compiler, as the statement says 'valid TypeScript for beff'. Known findings record hash differences that only come from alias boundaries (see C08/C13).",
+}
